@@ -35,6 +35,7 @@ type c15Op struct {
 	Sigs   int    `json:"sigs,omitempty"`   // sub: bit mask over the current feeds (0 => all)
 	Status int    `json:"status,omitempty"` // sub: 0 available, 1 unavailable, 2 unsupported
 	Dt     int    `json:"dt,omitempty"`     // end: seconds
+	Ms     int    `json:"ms,omitempty"`     // end: plus milliseconds (block times carry a sub-second part, as CometBFT's do)
 	Aim    string `json:"aim,omitempty"`    // end: choose dt so that the block lands on a boundary (+Delta)
 	Delta  int    `json:"delta,omitempty"`
 	// sub: msg.Timestamp = block time + offset; Off names the offset (c15Offsets), OffR parametrises "rand"
@@ -97,6 +98,7 @@ type c15ChainCase struct {
 	Diligent    []bool      `json:"diligent"` // validator is driven by the harness to report / submit every block
 	Expiration  uint64      `json:"expiration"`
 	PenaltySec  int64       `json:"penalty_sec"`
+	PenaltyMs   int64       `json:"penalty_ms,omitempty"` // plus milliseconds (the parameter is in nanoseconds)
 	Grace       int64       `json:"grace"`
 	MinInterval int64       `json:"min_interval"`
 	MaxInterval int64       `json:"max_interval"`
@@ -111,6 +113,15 @@ type c15ChainCase struct {
 
 const c15PowerStep = 1000
 
+// genC15Ms draws the sub-second part of a block duration: mostly none (whole-second clocks), otherwise values around
+// the ends of the second.
+func genC15Ms(rt *rapid.T) int {
+	if gen.Chance(rt, "subsecond", 3, 5) {
+		return 0
+	}
+	return gen.OneOf(rt, "ms", 1, 100, 200, 500, 800, 900, 999)
+}
+
 func genC15Chain(rt *rapid.T) c15ChainCase {
 	n := rapid.IntRange(3, 5).Draw(rt, "nvals")
 	c := c15ChainCase{NVals: n}
@@ -124,6 +135,9 @@ func genC15Chain(rt *rapid.T) c15ChainCase {
 	}
 	c.Expiration = uint64(gen.Range(rt, "exp", 1, 5))
 	c.PenaltySec = gen.OneOf[int64](rt, "penalty", 0, 0, 1, 2, 3, 4, 6, 30, 31, 100, 103, 600, int64(gen.Range(rt, "penalty-any", 0, 600)))
+	if gen.Chance(rt, "penalty-subsecond", 1, 6) {
+		c.PenaltyMs = gen.OneOf[int64](rt, "penalty-ms", 1, 250, 500, 999)
+	}
 	c.Grace = gen.OneOf[int64](rt, "grace", 1, 1, 2, 3, 3, 4, 5, 6, 7, 9, 10, 12, 30, 31, 60, int64(gen.Range(rt, "grace-any", 1, 60)))
 	c.MinInterval = gen.OneOf[int64](rt, "minint", 1, 2, 3, 4, 6, 10, 30)
 	c.MaxInterval = c.MinInterval * gen.OneOf[int64](rt, "maxint", 1, 2, 3, 10, 40)
@@ -144,7 +158,7 @@ func genC15Chain(rt *rapid.T) c15ChainCase {
 			c.Ops = append(c.Ops, c15Op{K: "act", Val: gen.Uniform(rt, "val", n), Mode: gen.Pick(rt, "mode", 1, 2)})
 			if gen.Chance(rt, "act-aim", 1, 2) {
 				// re-activation aimed at the end of the penalty period
-				c.Ops = append(c.Ops, c15Op{K: "end", Dt: 1, Aim: "penalty", Delta: gen.Range(rt, "delta", -1, 1)})
+				c.Ops = append(c.Ops, c15Op{K: "end", Dt: 1, Aim: "penalty", Delta: gen.Range(rt, "delta", -1, 1), Ms: genC15Ms(rt)})
 			}
 		case 1:
 			c.Ops = append(c.Ops, c15Op{K: "req", Ask: gen.Uniform(rt, "ask", n), Min: gen.Uniform(rt, "min", n)})
@@ -158,7 +172,7 @@ func genC15Chain(rt *rapid.T) c15ChainCase {
 			off, offr := genC15Offset(rt, true)
 			c.Ops = append(c.Ops, c15Op{K: "sub", Val: gen.Uniform(rt, "val", n), Sigs: sigs, Status: gen.Pick(rt, "status", 6, 1, 1), Off: off, OffR: offr})
 		default:
-			o := c15Op{K: "end", Dt: gen.OneOf(rt, "dt", 0, 0, 1, 1, 1, 1, 3, 3, 3, 30, 100, 1000)}
+			o := c15Op{K: "end", Dt: gen.OneOf(rt, "dt", 0, 0, 1, 1, 1, 1, 3, 3, 3, 30, 100, 1000), Ms: genC15Ms(rt)}
 			if gen.Chance(rt, "aim", 1, 4) {
 				o.Aim = gen.OneOf(rt, "aimkind", "grace-act", "grace-upd", "price", "price", "price-gap", "price-gap")
 				o.Val = gen.Uniform(rt, "val", n)
@@ -180,7 +194,8 @@ type c15Price struct{ ts, h, claimed int64 }
 
 type c15Val struct {
 	active     bool
-	since      int64 // time of the last status change
+	since      int64 // time of the last status change (unix seconds, as the feeds clocks read it)
+	sinceMs    int64 // the same in unix milliseconds (the oracle module compares full-precision times)
 	everDeact  bool
 	actHeight  int64
 	prices     map[string]c15Price // last accepted submission per signal
@@ -191,6 +206,7 @@ type c15Val struct {
 type c15Req struct {
 	id       uint64
 	h, t     int64
+	tMs      int64 // block time of the request in unix milliseconds
 	chosen   []int
 	sent     map[int]bool // a well-formed report was sent in time (model)
 	accepted map[int]bool // ... and the chain accepted it
@@ -221,7 +237,7 @@ func runC15Chain(c c15ChainCase) *pbt.Verdict {
 	}
 	op := oracletypes.DefaultParams()
 	op.ExpirationBlockCount = c.Expiration
-	op.InactivePenaltyDuration = uint64(c.PenaltySec) * uint64(time.Second) // the parameter is in nanoseconds
+	op.InactivePenaltyDuration = uint64(c.PenaltySec)*uint64(time.Second) + uint64(c.PenaltyMs)*uint64(time.Millisecond) // the parameter is in nanoseconds
 	fp := feedstypes.DefaultParams()
 	fp.GracePeriod = c.Grace
 	fp.MinInterval = c.MinInterval
@@ -260,6 +276,7 @@ func runC15Chain(c c15ChainCase) *pbt.Verdict {
 		vs[i] = &c15Val{prices: map[string]c15Price{}, clean: true}
 	}
 	penalty, grace, exp := c.PenaltySec, c.Grace, int64(c.Expiration)
+	penaltyMs := c.PenaltySec*1000 + c.PenaltyMs
 	offKind := func(k string) string {
 		if k == "" {
 			return "0"
@@ -286,8 +303,12 @@ func runC15Chain(c c15ChainCase) *pbt.Verdict {
 
 	flush := func(o c15Op) bool {
 		// ---- resolve dt -------------------------------------------------------------------------------
-		prev := ch.Time.Unix()
+		// Times: the feeds clocks read block times in whole unix seconds (prev, now), the oracle module compares
+		// full-precision times (prevMs, nowMs). An aimed block lands its whole-second part on target+Delta and
+		// adds the op's milliseconds; the penalty aim works on the millisecond axis.
+		prev, prevMs := ch.Time.Unix(), ch.Time.UnixMilli()
 		dt := int64(o.Dt)
+		durMs := dt*1000 + int64(o.Ms)
 		if o.Aim != "" {
 			target, ok := int64(0), false
 			switch o.Aim {
@@ -296,6 +317,13 @@ func runC15Chain(c c15ChainCase) *pbt.Verdict {
 					if p.K == "act" {
 						if i := c15ResolveAct(p, vs); i >= 0 && !vs[i].active && vs[i].everDeact {
 							target, ok = vs[i].since+penalty, true
+							if d := vs[i].sinceMs + penaltyMs + int64(o.Delta)*1000 + int64(o.Ms) - prevMs; d >= 0 && d <= 2000_000 {
+								durMs = d
+								v.Count("aimed_blocks", 1)
+							} else {
+								v.Count("aim_inapplicable", 1)
+							}
+							ok = false // resolved on the millisecond axis
 						}
 						break
 					}
@@ -339,14 +367,19 @@ func runC15Chain(c c15ChainCase) *pbt.Verdict {
 					o.Delta = 0
 				}
 			}
-			if d := target + int64(o.Delta) - prev; ok && d >= 0 && d <= 2000 {
-				dt = d
+			if d := (target+int64(o.Delta))*1000 + int64(o.Ms) - prevMs; ok && d >= 0 && d <= 2000_000 {
+				durMs = d
 				v.Count("aimed_blocks", 1)
-			} else {
+			} else if ok || o.Aim != "penalty" {
 				v.Count("aim_inapplicable", 1)
 			}
 		}
-		now, h := prev+dt, ch.Height+1
+		nowMs, h := prevMs+durMs, ch.Height+1
+		now := nowMs / 1000
+		if nowMs%1000 != 0 {
+			v.Count("blocks_with_subsecond_time", 1)
+		}
+		_ = prev
 
 		// ---- build the transactions ------------------------------------------------------------------------
 		var txs [][]byte
@@ -407,7 +440,7 @@ func runC15Chain(c c15ChainCase) *pbt.Verdict {
 				a := ch.Vals[i]
 				txs = append(txs, ch.SignTx(a, oracletypes.NewMsgActivate(a.Val)))
 				metas = append(metas, c15Meta{kind: "act", v: i})
-				if ref.ActivationAllowed(pred[i], vs[i].everDeact, vs[i].since, penalty, now) != ref.No {
+				if ref.ActivationAllowed(pred[i], vs[i].everDeact, vs[i].sinceMs, penaltyMs, nowMs) != ref.No {
 					pred[i] = true
 				}
 			case "req":
@@ -490,7 +523,7 @@ func runC15Chain(c c15ChainCase) *pbt.Verdict {
 		pend = nil
 
 		// ---- execute -----------------------------------------------------------------------------------------
-		res, err := ch.Block(txs, time.Duration(dt)*time.Second)
+		res, err := ch.Block(txs, time.Duration(durMs)*time.Millisecond)
 		if err != nil {
 			v.Failf("C15/finalize", "block %d failed: %v", h, err)
 			return false
@@ -504,23 +537,29 @@ func runC15Chain(c c15ChainCase) *pbt.Verdict {
 			switch m.kind {
 			case "act":
 				s := vs[m.v]
-				allowed := ref.ActivationAllowed(s.active, s.everDeact, s.since, penalty, now)
+				allowed := ref.ActivationAllowed(s.active, s.everDeact, s.sinceMs, penaltyMs, nowMs)
 				if !s.active && s.everDeact && margin1(now-s.since-penalty) {
 					classes[fmt.Sprintf("act:penalty%+d:%v", now-s.since-penalty, ok)] = true
+				}
+				if early := s.sinceMs + penaltyMs - nowMs; !s.active && s.everDeact && early > 0 && early < 1000 {
+					classes[fmt.Sprintf("act:less-than-a-second-early:%v", ok)] = true
+					if now-s.since >= penalty {
+						classes["act:early-only-by-the-subsecond-part"] = true
+					}
 				}
 				if ok {
 					switch allowed {
 					case ref.No:
 						why := "it was already active"
 						if !s.active {
-							why = fmt.Sprintf("deactivated at %d, penalty %ds, now %d (%ds too early)", s.since, penalty, now, s.since+penalty-now)
+							why = fmt.Sprintf("deactivated at %d ms, penalty %d ms, now %d ms (%d ms too early)", s.sinceMs, penaltyMs, nowMs, s.sinceMs+penaltyMs-nowMs)
 						}
 						v.Failf("C15/activate-not-eligible", "MsgActivate of val%d succeeded at height %d although %s", m.v, h, why)
 						return false
 					case ref.Either:
 						v.Count("boundary_equal_activate_accepted", 1)
 					}
-					s.active, s.since, s.actHeight, s.everActive = true, now, h, true
+					s.active, s.since, s.sinceMs, s.actHeight, s.everActive = true, now, nowMs, h, true
 					s.clean = true // the record "always reported / always fresh" is kept per activation period
 					v.Count("activations", 1)
 				} else {
@@ -543,7 +582,7 @@ func runC15Chain(c c15ChainCase) *pbt.Verdict {
 					v.Count("requests_failed", 1)
 					continue
 				}
-				r := &c15Req{h: h, t: now, sent: map[int]bool{}, accepted: map[int]bool{}}
+				r := &c15Req{h: h, t: now, tMs: nowMs, sent: map[int]bool{}, accepted: map[int]bool{}}
 				for _, e := range res.Resp.TxResults[k].Events {
 					if e.Type == "request" {
 						fmt.Sscan(sim.Attr(e, "id"), &r.id)
@@ -652,7 +691,7 @@ func runC15Chain(c c15ChainCase) *pbt.Verdict {
 					nearDecision = true
 					classes[fmt.Sprintf("oracle:since-reqtime%+d:%s", d, c15Outcome(!st.IsActive))] = true
 				}
-				if ref.OracleMiss(true, true, false, true, s.since, r.t) {
+				if ref.OracleMiss(true, true, false, true, s.sinceMs, r.tMs) {
 					oracleMiss = true
 					oracleDetail = fmt.Sprintf("request %d (made at %d, height %d) expired unreported", r.id, r.t, r.h)
 				}
@@ -731,7 +770,7 @@ func runC15Chain(c c15ChainCase) *pbt.Verdict {
 				if deactEvents[i] != 1 {
 					v.Count("deactivate_event_mismatch", 1)
 				}
-				s.active, s.since, s.everDeact = false, now, true
+				s.active, s.since, s.sinceMs, s.everDeact = false, now, nowMs, true
 			} else {
 				switch genuine {
 				case ref.Yes:
@@ -744,7 +783,7 @@ func runC15Chain(c c15ChainCase) *pbt.Verdict {
 				if deactEvents[i] != 0 {
 					v.Count("deactivate_event_mismatch", 1)
 				}
-				if !st.Since.Equal(time.Unix(s.since, 0)) {
+				if !st.Since.Equal(time.UnixMilli(s.sinceMs)) {
 					v.Count("since_mismatch", 1)
 				}
 			}
